@@ -19,3 +19,8 @@ func VerifPipelineNode(fqid string, call *CallStm, pipeline *Pipeline, parent *C
 
 // VerifSetSplit sets the split expression of a stage node.
 func VerifSetSplit(n *CallGraphStage, s *SplitExp) { n.split = s }
+
+// VerifStageNodeFull builds a stage node whose Callable() is the given stage.
+func VerifStageNodeFull(fqid string, call *CallStm, stage *Stage) *CallGraphStage {
+	return &CallGraphStage{Fqid: fqid, call: call, stage: stage}
+}
